@@ -491,6 +491,20 @@ func runC14Fast(c *Ctx) {
 			if call, ok := ins.(*ssa.Call); ok && calleeName(&call.Call) == "strings.Split" {
 				splitCall = call
 			}
+			if call, ok := ins.(*ssa.Call); ok && (calleeName(&call.Call) == "strings.SplitN" || calleeName(&call.Call) == "strings.SplitAfter" || calleeName(&call.Call) == "strings.SplitAfterN" || calleeName(&call.Call) == "strings.Fields") && len(call.Call.Args) >= 1 && call.Call.Args[0] == fn.Params[0] {
+				limited := true
+				if calleeName(&call.Call) == "strings.SplitN" && len(call.Call.Args) == 3 {
+					if k, ok := constInt(call.Call.Args[2]); ok && k < 0 {
+						limited = false
+						splitCall = call
+					}
+				}
+				if limited {
+					c.Sites++
+					c.Bad("C14-FAST", fnName(fn), "fast-path", call.Pos(), "the fast path splits the text with "+calleeName(&call.Call)+" (a piece limit, kept separators or white-space splitting) instead of strings.Split: a field with many rules comes back with the remaining rules glued into the last piece, and the fast and the quote-aware path disagree on the number of rules")
+					return
+				}
+			}
 		}
 	}
 	if splitCall == nil {
